@@ -422,3 +422,8 @@ func TestVerifRecProbe(t *testing.T) {
 		fmt.Printf("PROBE %s len=%d init=%d parts=%d samples=%d videoSync=%d mvhd=%d/%d segnum=%d end=%v completed=%v open=%d tail=%d\n", filepath.Base(p), len(b), s.InitLen, len(s.Parts), ns, sync, s.MvhdDuration, s.MvhdTimescale, s.SegNum, s.mediaEnd(len(s.Parts)), rec.Completed[p], len(rec.OpenImage[p]), s.TailOff)
 	}
 }
+
+// seekBuf collects the output of a muxer run in-process (diagnostics).
+type seekBuf struct{ b []byte }
+
+func (s *seekBuf) Write(p []byte) (int, error) { s.b = append(s.b, p...); return len(p), nil }
